@@ -54,8 +54,29 @@ func decode(b []byte) (m mqtt.Message, perr string) {
 	if rd.Buffered() != 0 {
 		return m, fmt.Sprintf("decoder left %d bytes unread", rd.Buffered())
 	}
+	// decoded packets are kept while later packets are decoded: a decoder that hands out memory it reuses for the next packet
+	// passes an immediate comparison; the snapshot taken now must still describe the value after the next decodes
+	for _, h := range heldPackets {
+		if now := fmt.Sprintf("%#v", h.m); now != h.snap {
+			heldChanged = fmt.Sprintf("a packet decoded earlier (%T) changed after later packets were decoded: it was %.200s, it is now %.200s", h.m, h.snap, now)
+		}
+	}
+	if len(b) < 4096 {
+		heldPackets = append(heldPackets, heldPacket{m, fmt.Sprintf("%#v", m)})
+		if len(heldPackets) > 5 {
+			heldPackets = heldPackets[1:]
+		}
+	}
 	return m, ""
 }
+
+type heldPacket struct {
+	m    mqtt.Message
+	snap string
+}
+
+var heldPackets []heldPacket
+var heldChanged string
 
 func pahoDecode(b []byte) (packets.ControlPacket, string) {
 	rd := bytes.NewReader(b)
@@ -83,6 +104,11 @@ var bodyLens = []int{2, 3, 10, 126, 127, 128, 129, 16382, 16383, 16384, 16385, 6
 func TestC16(t *testing.T) {
 	rec := vk.New("C16", "codec")
 	defer rec.Finish(t)
+	defer func() {
+		if heldChanged != "" {
+			rec.Violation(0, "decoded-packet-changed-later", heldChanged, nil)
+		}
+	}()
 	rec.Rule("case = one packet value: (a) every type the broker emits (CONNACK, PUBLISH, PUBACK, SUBACK, UNSUBACK, PINGRESP) encoded with EncodeTo and decoded by paho; (b) every one of the 14 types written by paho and decoded by mqtt.DecodePacket; (c) EncodeTo then DecodePacket for all 14 types; " +
 		"enumerated: all header flag combinations, QoS 0-2 incl. will QoS, all will/username/password flag combinations, remaining lengths around 0, 127/128, 16383/16384 and the 64 KiB limit, empty strings and payloads, 0..N tuples; x seeded random fill; " +
 		"non-trivial = every case; distinct = (direction, type, field shape)")
